@@ -8,7 +8,8 @@ use crate::ctx::{guarded, hex, Ctx, Part};
 
 /// class representatives: caret, digits (0, colour-and-codepage 8, 9), escape letters (v a h),
 /// reserved characters (| * # \), codepage letters (L J E), accented/other-codepage/double-byte, plain
-pub const ALPHABET: [char; 18] = ['^', '0', '8', '9', 'v', 'a', 'h', '|', '*', '#', '\\', 'L', 'J', 'E', 'é', 'ě', 'あ', 'x'];
+// '²' and '１' are numeric characters that are not the ASCII digits of a colour code
+pub const ALPHABET: [char; 20] = ['^', '0', '8', '9', 'v', 'a', 'h', '|', '*', '#', '\\', 'L', 'J', 'E', 'é', 'ě', 'あ', 'x', '²', '１'];
 const RESERVED: [char; 10] = ['|', '*', ':', '\\', '/', '?', '"', '<', '>', '#'];
 const ESCAPE_LETTERS: [char; 10] = ['v', 'a', 'c', 'd', 's', 'q', 't', 'l', 'r', 'h'];
 
@@ -130,8 +131,8 @@ pub fn check_string(s: &str, p: &mut Part, encodable: bool) {
 fn nth_string(mut idx: u64, len: usize) -> String {
     let mut s = String::with_capacity(len * 3);
     for _ in 0..len {
-        s.push(ALPHABET[(idx % 18) as usize]);
-        idx /= 18;
+        s.push(ALPHABET[(idx % ALPHABET.len() as u64) as usize]);
+        idx /= ALPHABET.len() as u64;
     }
     s
 }
@@ -140,7 +141,7 @@ pub fn run(ctx: &mut Ctx) -> (&'static str, String, bool) {
     let maxlen = ctx.tier.pick(4usize, 6usize);
     let mut total = 0u64;
     for len in 0..=maxlen {
-        let n = 18u64.pow(len as u32);
+        let n = (ALPHABET.len() as u64).pow(len as u32);
         total += n;
         let chunk = 10_000u64;
         let parts: Vec<Part> = (0..n.div_ceil(chunk))
@@ -163,7 +164,7 @@ pub fn run(ctx: &mut Ctx) -> (&'static str, String, bool) {
     // token-level exhaustive: multi-character tokens (colour/codepage-reset ^8, escaped caret, colour, a
     // double-byte character, Latin-1 and other-codepage letters, codepage letters, a reserved character)
     {
-        const TOKENS: [&str; 11] = ["^8", "^", "^1", "あ", "美", "é", "ě", "ж", "L", "E", "|"];
+        const TOKENS: [&str; 12] = ["^8", "^", "^1", "あ", "美", "é", "ě", "ж", "L", "E", "|", "１"];
         let maxtok = ctx.tier.pick(5usize, 6usize);
         let mut ntok = 0u64;
         for len in 1..=maxtok {
@@ -235,7 +236,7 @@ pub fn run(ctx: &mut Ctx) -> (&'static str, String, bool) {
     ctx.assume("'encodable' repertoire for the wire-chain clause: characters present in at least one of the ten LFS codepages (checked by construction of the pool)");
     (
         "exploration",
-        format!("all strings of length <= {maxlen} over the 18-character class alphabet {:?} + random strings up to 200 chars (3/4 over an encodable repertoire with the codepage clause, 1/4 arbitrary Unicode); distinct = distinct input strings", ALPHABET),
+        format!("all strings of length <= {maxlen} over the 20-character class alphabet {:?} + random strings up to 200 chars (3/4 over an encodable repertoire with the codepage clause, 1/4 arbitrary Unicode); distinct = distinct input strings", ALPHABET),
         true,
     )
 }
